@@ -31,9 +31,10 @@ PAIRS = {
     "scale": ("cp_als", "hosvd", "tucker_als"),
     "relabel": ("cp_als", "hosvd", "tucker_als"),
 }
-# everything except the four cp_als relations proved by the package owner in Props/C18.v
+# everything except the cp_als relations proved in Props/C18.v (repr, print, scale)
 CORRESPONDENCE_ONLY = [f"{p}.{a}" for p, algs in PAIRS.items() for a in algs
-                       if not (a == "cp_als" and p in ("repr", "print", "scale", "relabel"))]
+                       if not (a == "cp_als" and p in ("repr", "print", "scale"))]
+# relabel.cp_als: only the denotation lemma C18_relabel_den is proved; the algorithm-level statement C18_relabel_stmt is not
 
 RULE = ("metamorphic pairs of real runs, maxiters <= 5, <= 36 cells, ranks 1-2: repr = dense vs sparse holder of the same integer "
         "data (stored order sorted|reversed|random) for cp_als, cp_apr mu/pdnr/pqnr, tucker_als (hosvd and gcp_opt+LBFGSB reject "
